@@ -97,3 +97,58 @@ class Effects:
         s.busy.discard(key)
         s.summ[key] = sm
         return sm
+
+
+MUTATORS = {"update", "append", "extend", "insert", "pop", "popitem", "clear", "setdefault", "remove", "add", "discard", "sort", "reverse", "fill"}
+
+
+def check_no_shared_module_state(ctx, rule="R-instance-state-not-shared", files=("speckit/analysis.py", "speckit/noise.py", "speckit/core.py", "speckit/schedulers.py")):
+    """an instance attribute bound to a module-level mutable object WITHOUT a copy, and then mutated through the attribute, is one object
+    shared by all instances (and by all later calls): what one analyzer configures, every other analyzer sees."""
+    repo = ctx.repo
+    n = 0
+    for rel in files:
+        if rel not in repo.mods: continue
+        mod = repo.module(rel)
+        mutable = {}
+        for st in mod.body:
+            tgt, val = None, None
+            if isinstance(st, ast.Assign) and len(st.targets) == 1 and isinstance(st.targets[0], ast.Name): tgt, val = st.targets[0].id, st.value
+            elif isinstance(st, ast.AnnAssign) and isinstance(st.target, ast.Name) and st.value is not None: tgt, val = st.target.id, st.value
+            if tgt and (isinstance(val, (ast.Dict, ast.List, ast.Set)) or (isinstance(val, ast.Call) and ast.unparse(val.func) in ("dict", "list", "set", "OrderedDict", "collections.OrderedDict", "defaultdict", "collections.defaultdict"))):
+                mutable[tgt] = st
+        for cls in [c for c in mod.body if isinstance(c, ast.ClassDef)]:
+            ckey = f"{rel}::{cls.name}"
+            bound = {}       # attribute -> (module name, node)
+            for fn in [f for f in cls.body if isinstance(f, ast.FunctionDef)]:
+                if not fn.args.args: continue
+                me = fn.args.args[0].arg
+                for a in ast.walk(fn):
+                    if isinstance(a, ast.Assign) and isinstance(a.value, ast.Name) and a.value.id in mutable:
+                        for t in a.targets:
+                            if isinstance(t, ast.Attribute) and isinstance(t.value, ast.Name) and t.value.id == me: bound[t.attr] = (a.value.id, a)
+            for attr, (gname, node) in bound.items():
+                n += 1
+                hit = None
+                for fn in [f for f in cls.body if isinstance(f, ast.FunctionDef)]:
+                    if not fn.args.args: continue
+                    me = fn.args.args[0].arg
+                    path = f"{me}.{attr}"
+                    for a in ast.walk(fn):
+                        if isinstance(a, ast.Call) and isinstance(a.func, ast.Attribute) and a.func.attr in MUTATORS and ast.unparse(a.func.value) == path: hit = hit or (a, fn.name)
+                        if isinstance(a, (ast.Assign, ast.AugAssign)):
+                            for t in (a.targets if isinstance(a, ast.Assign) else [a.target]):
+                                if isinstance(t, ast.Subscript) and ast.unparse(t.value) == path: hit = hit or (a, fn.name)
+                        if isinstance(a, ast.Delete):
+                            for t in a.targets:
+                                if isinstance(t, ast.Subscript) and ast.unparse(t.value) == path: hit = hit or (a, fn.name)
+                c = f"{ckey}[self.{attr} = {gname}]"
+                where = f"{rel}:{node.lineno}"
+                if hit:
+                    ctx.violated(rule, c, f"self.{attr} is bound to the module-level {type(mutable[gname].value if hasattr(mutable[gname], 'value') else None).__name__.lower() or 'object'} {gname} without a copy and "
+                                 f"then modified in {cls.name}.{hit[1]} ({' '.join(ast.unparse(hit[0]).split())[:70]}): all instances share one object, so configuring one instance "
+                                 "silently reconfigures every other one alive in the process", where)
+                else:
+                    ctx.holds(rule, c, "bound to a module-level object but never modified through the attribute", where)
+    if n == 0:
+        ctx.holds(rule, "+".join(files), "no instance attribute is bound to a module-level mutable object", "")
